@@ -16,11 +16,16 @@ from bytesets import Evaluator, Undecidable, LIBC
 class Bound(Evaluator):
     """Evaluator with atoms (keyed by var id or by printed text for calls/members) bound to concrete values."""
 
-    def __init__(self, prog, f, by_id, by_text):
+    def __init__(self, prog, f, by_id, by_text, bind=None):
         Evaluator.__init__(self, prog, f, dict(by_id))
         self.by_text = by_text
+        self.bind = bind            # optional callable(expr) -> int or None
 
     def ev(self, e):
+        if e is not None and self.bind is not None:
+            r = self.bind(e)
+            if r is not None:
+                return r
         if e is not None and self.by_text and e.get('k') in ('call', 'mem', 'un', 'idx'):
             t = pe(e)
             if t in self.by_text:
@@ -87,6 +92,32 @@ def admitted(ev, guards, G=None):
         if r is not None and r != pol:
             return False
     return True
+
+
+def admitted3(ev, guards, G=None, relevant=None):
+    """Three-valued: False when some guard definitely excludes the point, True when every guard definitely admits it,
+    None when no guard excludes it but some guard could not be evaluated.  relevant(cond) -> False drops a guard that
+    does not speak about the bound quantity at all (a loop bound around a byte-order dependent site)."""
+    unknown = False
+    for c, pol, kind in guards:
+        if relevant is not None and isinstance(c, dict) and not relevant(c):
+            continue
+        if kind == 'case':
+            if admitted(ev, [(c, pol, kind)], G) is False:
+                return False
+            try:
+                ev.ev(c)
+            except Undecidable:
+                unknown = True
+            continue
+        if not isinstance(pol, bool):
+            continue
+        r = ev.ev3(c)
+        if r is None:
+            unknown = True
+        elif r != pol:
+            return False
+    return None if unknown else True
 
 
 def assigned_vars(f):
